@@ -69,7 +69,7 @@ def c15(ctx):
                 files = dict(files)
                 files[link[1]] = ['link', link[2], files[link[1]]]
             levels.append({'files': files})
-        return {'boundary': boundary, 'levels': levels, 'start': start, 'xdev': xdev, 'compr': compr}
+        return {'boundary': boundary, 'levels': levels, 'start': start, 'xdev': xdev, 'compr': compr, 'defaults': (ign_idx + start + boundary) % 2 == 0}
     combos = itertools.product(range(0, DEPTH + 1), range(1, DEPTH + 1), (True, False), (True, False))
     combos = list(combos)
     while len(cases) < n_target:
@@ -152,6 +152,10 @@ def c15(ctx):
         kinds[str(iv[0]) + ('/none' if iv[0] == 'ok' and not iv[1] else '')] = kinds.get(str(iv[0]) + ('/none' if iv[0] == 'ok' and not iv[1] else ''), 0) + 1
         if mi != iv:
             clean = mi[0] == 'ok' and iv[0] == 'ok'
+            if mi[0] == 'err' and iv[0] == 'ok' and mi[1][0] in ('OSError', 'BadCompressedFile', 'ManifestSyntaxError'):
+                ctx.violation('spec', 'discovery answered %s although a Manifest candidate on the way cannot be read (%s): an unreadable object '
+                              'was treated as non-existent' % (iv[1], mi[1]), {'where': 'find_top_level', 'case': c, 'impl': iv, 'model': mi, 'devs': res['devs']})
+                continue
             ctx.violation('spec' if clean else 'correspondence',
                           ('discovery returned %s but the outermost covering Manifest is %s (Spec/FindTop.v is_answer, '
                            'via theorem C15_outermost)' % (iv[1], mi[1])) if clean else
